@@ -20,6 +20,103 @@ static inline int spec_prefix_equal(const irc_inaddr *a, const irc_inaddr *b, un
     return 1;
 }
 
+/* C12: "IPv4-compatible addresses canonicalise to IPv4-mapped" */
+static inline int spec_is_ipv4(const irc_inaddr *a)
+{
+    return a->in6[0] == 0 && a->in6[1] == 0 && a->in6[2] == 0 && a->in6[3] == 0 && a->in6[4] == 0
+        && a->in6[6] != 0 && (a->in6[5] == 0 || a->in6[5] == 0xffff);
+}
+static inline void spec_canon(irc_inaddr *c, const irc_inaddr *a)
+{
+    unsigned i;
+    for (i = 0; i < 8; i++) c->in6[i] = a->in6[i];
+    if (spec_is_ipv4(a)) c->in6[5] = 0xffff;
+}
+static inline int spec_addr_eq(const irc_inaddr *a, const irc_inaddr *b)
+{
+    unsigned i;
+    for (i = 0; i < 8; i++) if (a->in6[i] != b->in6[i]) return 0;
+    return 1;
+}
+
+/* Reference parser for plain address text, written from RFC 4291 section 2.2 and the
+ * behaviour of glibc inet_pton (stands in for "the standard library parser", which is
+ * outside CBMC's reach; the native tier compares with the real inet_pton).
+ * Forms: x:x:x:x:x:x:x:x, one "::" standing for >= 1 zero group, each group 1-4 hex digits,
+ * or a plain dotted quad d.d.d.d (AF_INET; result stored IPv4-mapped).
+ * Returns 1 and fills *out when the whole string is a valid address. */
+static inline int spec_hexval(char c)
+{
+    if (c >= '0' && c <= '9') return c - '0';
+    if (c >= 'a' && c <= 'f') return c - 'a' + 10;
+    if (c >= 'A' && c <= 'F') return c - 'A' + 10;
+    return -1;
+}
+static inline int spec_parse_addr(const char *s, unsigned maxlen, irc_inaddr *out)
+{
+    unsigned short g[8];
+    unsigned n = 0, i = 0, k, gap = 9, digits = 0, val = 0, hascolon = 0;
+    for (k = 0; k < maxlen && s[k]; k++) if (s[k] == ':') hascolon = 1;
+    for (k = 0; k < 8; k++) out->in6[k] = 0;
+    if (!hascolon) {
+        unsigned parts = 0, ip = 0;
+        val = 0; digits = 0;
+        for (i = 0; i <= maxlen; i++) {
+            char c = i < maxlen ? s[i] : 0;
+            if (c >= '0' && c <= '9') {
+                if (digits > 0 && val == 0) return 0;   /* leading zero: glibc rejects */
+                val = val * 10 + (unsigned)(c - '0'); digits++;
+                if (val > 255) return 0;
+            } else if (c == '.' || c == 0) {
+                if (digits == 0) return 0;
+                ip = (ip << 8) | val; parts++; val = 0; digits = 0;
+                if (c == 0) break;
+                if (parts > 3) return 0;
+            } else return 0;
+        }
+        if (parts != 4) return 0;
+        out->in6_8[10] = 0xff; out->in6_8[11] = 0xff;
+        out->in6_8[12] = (uint8_t)(ip >> 24); out->in6_8[13] = (uint8_t)(ip >> 16);
+        out->in6_8[14] = (uint8_t)(ip >> 8); out->in6_8[15] = (uint8_t)ip;
+        return 1;
+    }
+    if (s[0] == ':') {
+        if (maxlen < 2 || s[1] != ':') return 0;
+        gap = 0; i = 2;
+    }
+    for (;;) {
+        char c = i < maxlen ? s[i] : 0;
+        int h = spec_hexval(c);
+        if (h >= 0) {
+            if (digits == 4) return 0;
+            val = (val << 4) | (unsigned)h; digits++; i++;
+        } else if (c == ':') {
+            if (digits == 0) return 0;                       /* ":::" or ":" after "::" */
+            if (n >= 8) return 0;
+            g[n++] = (unsigned short)val; val = 0; digits = 0; i++;
+            c = i < maxlen ? s[i] : 0;
+            if (c == ':') {
+                if (gap != 9) return 0;                      /* second "::" */
+                gap = n; i++;
+            } else if (c == 0) return 0;                     /* trailing single colon */
+        } else if (c == 0) {
+            if (digits > 0) { if (n >= 8) return 0; g[n++] = (unsigned short)val; }
+            else if (!(gap == n && i >= 2)) return 0;        /* empty tail is fine only right after "::" */
+            break;
+        } else return 0;
+    }
+    if (gap == 9) { if (n != 8) return 0; }
+    else if (n >= 8) return 0;                               /* "::" must stand for >= 1 group */
+    for (k = 0; k < 8; k++) {
+        unsigned short v;
+        if (gap == 9 || k < gap) v = g[k];
+        else if (k < gap + (8 - n)) v = 0;
+        else v = g[k - (8 - n)];
+        out->in6_8[2 * k] = (uint8_t)(v >> 8); out->in6_8[2 * k + 1] = (uint8_t)v;
+    }
+    return 1;
+}
+
 static inline int spec_sign(long long x) { return x < 0 ? -1 : x > 0 ? 1 : 0; }
 
 #endif
